@@ -157,6 +157,22 @@ class ACond:
         return "(%r %s %r)" % (self.left, self.op, self.right)
 
 
+class SetVal(list):
+    """A set, kept as a duplicate-free list in insertion order (iteration order of a real set is unspecified:
+    consumers that depend on it should sort)."""
+
+    def add_(self, x):
+        if not any(x is y or (type(x) is type(y) and x == y) for y in self):
+            self.append(x)
+
+
+def _setval(items):
+    out = SetVal()
+    for x in items:
+        out.add_(x)
+    return out
+
+
 class Callback:
     """A caller-supplied callable with a known abstract result."""
 
@@ -490,19 +506,22 @@ class Interp:
         if isinstance(st, ast.Try):
             # builders have no try; model: body only, handlers on RaiseEx by name
             try:
-                self.exec_block(st.body, env)
-            except RaiseEx as e:
-                for h in st.handlers:
-                    if h.type is None or e.exc in norm(h.type):
-                        self.exec_block(h.body, env)
-                        break
+                try:
+                    self.exec_block(st.body, env)
+                except RaiseEx as e:
+                    for h in st.handlers:
+                        if h.type is None or e.exc in norm(h.type) or norm(h.type) in ("Exception", "BaseException"):
+                            if h.name:
+                                env[h.name] = Opaque(e.exc, "exc")
+                            self.exec_block(h.body, env)
+                            break
+                    else:
+                        raise
                 else:
-                    raise
-            else:
-                self.exec_block(st.orelse, env)
+                    self.exec_block(st.orelse, env)
             finally:
-                pass
-            self.exec_block(st.finalbody, env)
+                if st.finalbody:
+                    self.exec_block(st.finalbody, env)
             return
         if isinstance(st, ast.Assert):
             return
@@ -603,7 +622,7 @@ class Interp:
         if node.id in ("str", "int", "list", "tuple", "dict", "set", "bytes", "float", "bool", "object"):
             return TypeVal(node.id)
         if node.id in ("isinstance", "len", "map", "locals", "hasattr", "any", "all", "sorted", "enumerate",
-                       "range", "zip", "getattr", "iter", "print", "min", "max", "repr", "type", "ord", "chr", "hex"):
+                       "range", "zip", "getattr", "iter", "print", "min", "max", "repr", "type", "ord", "chr", "hex", "setattr", "delattr"):
             return Builtin(node.id)
         if node.id in ("ValueError", "TypeError", "KeyError", "NotImplementedError", "Exception", "StopIteration"):
             return TypeVal(node.id)
@@ -630,6 +649,23 @@ class Interp:
         if isinstance(base, (Opaque, Sym)):
             if node.attr in base.attrs:
                 return base.attrs[node.attr]
+            if isinstance(base, Opaque) and base.name == "self":
+                # a class-level constant (self._SQL): the class body assignment, along the MRO
+                func = env.get("__func__")
+                c = getattr(func, "cls", None)
+                f_ = func
+                while c is None and f_ is not None and getattr(f_, "parent", None) is not None:
+                    f_ = f_.parent
+                    c = f_.cls
+                if c is not None:
+                    for k in self.proj.mro(c):
+                        vals = [n.value for n in k.node.body if isinstance(n, ast.Assign) and any(isinstance(t, ast.Name) and t.id == node.attr for t in n.targets)]
+                        if len(vals) == 1:
+                            v = self.folder.try_fold(vals[0], k.module.name, default=None)
+                            if v is not None:
+                                return _thaw(v) if not isinstance(v, (str, int, float)) else v
+                        if vals:
+                            break
             if isinstance(base, Sym) and base.kind == "Feature":
                 kind = "int" if node.attr in ("start", "end", "stop") else "str"
                 return Sym("%s.%s" % (base.name, node.attr), kind, True)
@@ -649,6 +685,15 @@ class Interp:
 
     def e_Tuple(self, node, env):
         return tuple(self.e_List(node, env))
+
+    def e_Set(self, node, env):
+        return _setval(self.e_List(node, env))
+
+    def e_SetComp(self, node, env):
+        fake = ast.ListComp(elt=node.elt, generators=node.generators)
+        ast.copy_location(fake, node)
+        v = self.e_ListComp(fake, env)
+        return _setval(v) if isinstance(v, list) and not any(isinstance(x, Star) for x in v) else v
 
     def e_Dict(self, node, env):
         d = {}
@@ -960,9 +1005,20 @@ class Interp:
                 except IndexError:
                     raise RaiseEx("IndexError", "index %s" % key, node)
             raise Unsupported("index %r" % (key,))
+        if isinstance(base, Opaque) and base.attrs:
+            # an object of a package class that defines __getitem__: dispatch to it
+            m_ = self._class_method(base.kind, "__getitem__")
+            if m_ is not None:
+                return self.call_func(m_, [key], {}, self_obj=base, node=node)
         if isinstance(base, (Sym, Opaque)):
             return Sym("%s[%s]" % (base.name, _nm(key)), "any", None)
         raise Unsupported("subscript of %r" % (base,))
+
+    def _class_method(self, kind, name):
+        cs = [c for q, c in self.proj.classes.items() if q.split(".")[-1] == kind]
+        if len(cs) != 1:
+            return None
+        return self.proj.method(cs[0], name)
 
     def e_ListComp(self, node, env):
         if len(node.generators) != 1:
@@ -1123,7 +1179,11 @@ class Interp:
             if isinstance(v, Opaque):
                 return v
             if isinstance(v, (list, tuple)):
-                return list(dict.fromkeys(v))
+                if any(isinstance(x, (Star, RepList)) for x in v):
+                    return list(dict.fromkeys(v))
+                return _setval(v)
+            if isinstance(v, dict):
+                return _setval(list(v))
             raise Unsupported("set(%r)" % (v,))
         if name in ("ValueError", "TypeError", "KeyError", "Exception"):
             return Opaque(name, "exc")
@@ -1197,6 +1257,13 @@ class Interp:
                     return o.attrs[a]
                 return Sym("%s.%s" % (o.name, a), "any", None)
             raise Unsupported("getattr(%r, %r)" % (o, a))
+        if name == "setattr":
+            o, a, v = pos[0], pos[1], pos[2]
+            if isinstance(o, (Opaque, Sym)) and isinstance(a, str):
+                o.attrs[a] = v
+                self.trace.events.append(("setattr", o, a, v, node))
+                return None
+            raise Unsupported("setattr(%r, %r, ...)" % (o, a))
         if name in ("ord", "chr", "hex"):
             v = pos[0]
             if isinstance(v, (Sym, AStr)):
@@ -1305,6 +1372,42 @@ class Interp:
             if attr == "encode" or attr == "decode":
                 return base
             raise Unsupported("str method %s" % attr)
+        # ---- sets
+        if isinstance(base, SetVal):
+            def items_(v):
+                if isinstance(v, (list, tuple)):
+                    return list(v)
+                if isinstance(v, dict):
+                    return list(v)
+                raise Unsupported("set operation with %r" % (v,))
+            if attr == "add":
+                base.add_(pos[0])
+                return None
+            if attr == "update":
+                for a_ in pos:
+                    for x in items_(a_):
+                        base.add_(x)
+                return None
+            if attr == "union":
+                out = _setval(base)
+                for a_ in pos:
+                    for x in items_(a_):
+                        out.add_(x)
+                return out
+            if attr == "difference":
+                other = [x for a_ in pos for x in items_(a_)]
+                return _setval([x for x in base if not any(x is y or (type(x) is type(y) and x == y) for y in other)])
+            if attr == "intersection":
+                other = [x for a_ in pos for x in items_(a_)]
+                return _setval([x for x in base if any(x is y or (type(x) is type(y) and x == y) for y in other)])
+            if attr == "discard":
+                for y in list(base):
+                    if y is pos[0] or (type(y) is type(pos[0]) and y == pos[0]):
+                        base.remove(y)
+                return None
+            if attr == "copy":
+                return _setval(base)
+            raise Unsupported("set method %s" % attr)
         # ---- lists
         if isinstance(base, list):
             if attr == "append":
